@@ -119,6 +119,9 @@ def step (st : DS) (line : String) : DS × String :=
     match st.tokens with
     | r :: rest => let nb := b.undoNull r; ({ st with board := nb, tokens := rest }, dump nb)
     | [] => (st, "bad-op")
+  | ["rh"] =>   -- ResetHash() on the current board: the history is cut to the recomputed current hash (no undo below this point)
+    let nb := b.resetHash K
+    ({ st with board := nb, tokens := [], hist := [histEntry nb] }, dump nb)
   | ["gen"] => (st, movesStr (MoveGen.genNoisy b) ++ "|" ++ movesStr (MoveGen.genNotNoisy b))
   | ["ipl"] => (st, iplBitmap b)
   | ["ipl1", m] => (st, bstr (b.isPseudoLegal m.toNat!))
